@@ -464,4 +464,8 @@ theorem primeFactors_pos : ∀ (fuel n : Nat), ∀ p ∈ primeFactors n fuel, 0 
       · exact Nat.lt_of_lt_of_le (by norm_num) (smallestFactor_spec n n 2 (Nat.le_refl 2) (by omega)).2
       · exact primeFactors_pos fuel _ p hp
 
+theorem pow_mod_of_pow_eq_one {R : Type} [CommRing R] (w : R) (n m : Nat) (hw : w ^ n = 1) : w ^ (m % n) = w ^ m := by
+  conv_rhs => rw [← Nat.div_add_mod m n, pow_add, pow_mul, hw, one_pow, one_mul]
+
+
 end OFV.C14
